@@ -121,6 +121,24 @@ UmadAccepts(g, c, addN, addD, delN, delD, emptyKind, emptyN, emptyD, newMin) ==
          \/ (Len(c) = 1 /\ c[1] >= newMin /\ emptyN > 0)
     ELSE UmadExplains(g, c, 1, 1, KeepChoices(delN, delD), InsChoices(addN, addD, delN, delD), newMin)
 
+(* The same for genes of any kind: a new gene is a member of the generator's *)
+(* alphabet New (it may equal a parental gene).                              *)
+RECURSIVE UmadExplainsIn(_, _, _, _, _, _, _)
+UmadExplainsIn(g, c, i, j, KC, IC, New) ==
+  IF i > Len(g) THEN j = Len(c) + 1
+  ELSE \E keep \in KC, ins \in IC :
+         LET j1 == IF keep THEN j + 1 ELSE j
+             j2 == IF ins THEN j1 + 1 ELSE j1
+         IN /\ (keep => (j <= Len(c) /\ c[j] = g[i]))
+            /\ (ins => (j1 <= Len(c) /\ c[j1] \in New))
+            /\ UmadExplainsIn(g, c, i + 1, j2, KC, IC, New)
+
+UmadAcceptsIn(g, c, addN, addD, delN, delD, emptyKind, emptyN, emptyD, New) ==
+  IF Len(g) = 0 /\ emptyKind = "rate"
+    THEN \/ (c = <<>> /\ emptyN < emptyD)
+         \/ (Len(c) = 1 /\ c[1] \in New /\ emptyN > 0)
+    ELSE UmadExplainsIn(g, c, 1, 1, KeepChoices(delN, delD), InsChoices(addN, addD, delN, delD), New)
+
 (* C11 clauses on a UMAD child *)
 RECURSIVE IsSubseq(_, _)
 IsSubseq(x, y) == IF x = <<>> THEN TRUE ELSE IF y = <<>> THEN FALSE
